@@ -452,3 +452,34 @@ Proof.
 Qed.
 
 End Walk.
+
+(** send_data on a well-formed message that takes the recoding path and completes *)
+Theorem send_data_multipart_content (m helo : bytes) (ext8 : bool) :
+  helo_ok helo -> byte_list m -> wf_ent m ext8 (hview m) 0 (length m) ->
+  forall fl st, send_data m helo ext8 = Ok (fl, true, Done tt st) ->
+  exists W extra, outof st = W ++ extra ++ TERMINATOR /\ (extra = [] \/ extra = CRLF) /\
+                  ent_sent m ext8 (MK helo) (hview m) 0 (length m) W.
+Proof.
+  intros Hhelo Hb Hwf fl st H. unfold send_data in H. cbv zeta in H.
+  assert (Hw : 0 + length m <= length m) by lia.
+  rewrite (need_recode_ok m 0 (length m) Hw) in H. cbn [bind] in H.
+  assert (Em : sub m 0 (length m) = m) by (unfold sub; cbn [skipn]; apply firstn_all).
+  rewrite Em in H. set (rf := nr_fun m flags0 0 false) in *. set (st0 := mkSt [] true) in *.
+  destruct (takes_qp ext8 rf) eqn:Eq.
+  2: { destruct (liftS (send_plain m 0 (length m) st0)) as [r| |]; cbn [bind] in H; try discriminate.
+       destruct r; inversion H. }
+  assert (Hl : 1 <= length m).
+  { destruct m as [|c0 r0]; [|cbn [length]; lia]. exfalso. unfold rf in Eq. destruct ext8; vm_compute in Eq; discriminate. }
+  assert (G0 : good ext8 [] st0 []) by (apply (good_init ext8 st0)).
+  destruct (entity_content m helo ext8 Hhelo Hb [] (S (length m)) 0 (length m) st0 Hw ltac:(lia) Hl G0 Hwf) as (r & Er & Hr).
+  rewrite Er in H. cbn [bind] in H. destruct r as [u st1|why st1]; [|discriminate].
+  inversion H; subst fl st. clear H.
+  destruct Hr as (t & W & c & Gt & _ & Eo & (Hc & Hct) & HS). change (outof st0) with (@nil N) in Eo. cbn [app] in Eo.
+  rewrite outof_wr. destruct (lastlf st1) eqn:Elf.
+  - assert (Et : t = []) by (destruct Gt as (? & _ & _ & _ & Hlf); apply Hlf; exact Elf).
+    assert (Ec : c = []) by (apply Hct; exact Et). subst c. rewrite app_nil_r in Eo.
+    exists W, []. split; [rewrite Eo; reflexivity|]. split; [left; reflexivity|exact HS].
+  - destruct Hc as [->| ->].
+    + rewrite app_nil_r in Eo. exists W, CRLF. split; [rewrite Eo, term_nolf; reflexivity|]. split; [right; reflexivity|exact HS].
+    + exists W, []. split; [rewrite <- Eo, term_nolf, <- !app_assoc; reflexivity|]. split; [left; reflexivity|exact HS].
+Qed.
